@@ -27,6 +27,8 @@ def _find_dist_info_metadata(
     """
     for best_match in (
         r"^(.+/)?{}-.+\.dist-info/METADATA$".format(project_name),
+        # The wheel's own dist-info sits at the top level, vendored ones are nested.
+        r"^[^/]+\.dist-info/METADATA$",
         r"^.*\.dist-info/METADATA",
     ):
         for info in namelist:
